@@ -1,5 +1,9 @@
 import Deb822Verif.Model.DebAccess
 import Deb822Verif.Spec.DocGrammar
+import Deb822Verif.Lemmas.DebLexLines
+import Deb822Verif.Lemmas.DebParseDoc
+import Deb822Verif.Lemmas.DebContentDoc
+import Deb822Verif.Spec.DocSDec
 /-!
 # C03 — well-formed deb822 documents are accepted and read back exactly as written
 -/
@@ -46,5 +50,99 @@ theorem C03_get_first (p : DNode) (k : Str) :
         simp [h1, h2, ih]
 
 theorem C03_contains (p : DNode) (k : Str) : containsKey p k = (Deb.get p k).isSome := rfl
+
+/-! ### acceptance: every well-formed document (Spec/DocS.lean: `DocS.WF`) -/
+
+/-- T-INV: lexing and parsing the text of a well-formed document yields exactly its tree, no error -/
+theorem C03_parse_inverts (d : DocS) (h : d.WF) : parse d.str = ⟨d.tree, []⟩ := by
+  unfold parse; rw [lex_doc d h, parse_doc d h]
+
+/-- the strict reader accepts every well-formed document and exposes exactly the paragraphs, the
+    field names in file order (duplicates included) and each value as its (non-empty) lines joined
+    by newlines, indentation and whitespace after the colon removed -/
+theorem C03_accept (d : DocS) (h : d.WF) :
+    readStrict d.str = .ok d.tree ∧ docItems d.tree = d.content := by
+  refine ⟨?_, docItems_tree d⟩
+  simp [readStrict, C03_parse_inverts d h]
+
+/-- the tolerant reader reports no error on it -/
+theorem C03_accept_relaxed (d : DocS) (h : d.WF) : readRelaxed d.str = (d.tree, []) := by
+  simp [readRelaxed, C03_parse_inverts d h]
+
+/-- lookups on the i-th paragraph of an accepted document, in terms of the document's content -/
+theorem C03_lookup (d : DocS) (i : Nat) (hi : i < d.paras.length) (k : Str) :
+    let p := (paragraphs d.tree)[i]'(by simpa [paragraphs_tree] using hi)
+    let c := d.content[i]'(by simpa [DocS.content] using hi)
+    keys p = c.map (·.1)
+    ∧ Deb.get p k = (c.find? (·.1 == k)).map (·.2)
+    ∧ getAll p k = (c.filter (·.1 == k)).map (·.2)
+    ∧ containsKey p k = (c.find? (·.1 == k)).isSome := by
+  intro p c
+  have hp : items p = c := by
+    simp only [p, c, paragraphs_tree, DocS.content, List.getElem_map]
+    exact items_para _
+  refine ⟨?_, ?_, ?_, ?_⟩
+  · rw [C03_keys_items, hp]
+  · rw [C03_get_first, hp]
+  · rw [C03_getAll_items, hp]
+  · rw [C03_contains, C03_get_first, hp]; simp
+
+/-- `Paragraph::from_str` returns the first paragraph -/
+theorem C03_paragraph_from_str (d : DocS) (h : d.WF) :
+    paragraphFromStr d.str =
+      match d.paras with
+      | [] => .error ["no paragraphs"]
+      | pg :: _ => .ok pg.1.node := by
+  simp only [paragraphFromStr, (C03_accept d h).1, paragraphs_tree]
+  cases d.paras <;> simp
+
+/-- the tree of a well-formed document prints as the document (sanity of the specification) -/
+theorem C03_tree_text (d : DocS) (h : d.WF) : d.tree.text = d.str := by
+  have := Deb822Verif.Props.C03.C03_parse_inverts d h
+  have h2 : (parse d.str).tree.leaves = lex d.str := by
+    unfold parse parseTokens
+    have hl := rootLoop_leaves (lex d.str)
+    rw [rootLoop_rest] at hl
+    simpa using hl
+  rw [this] at h2
+  have h3 := tokText_leaves d.tree
+  rw [h2] at h3
+  have : tokText (lex d.str) = d.str := by
+    unfold lex
+    have : ∀ st input, tokText (lexAux st input) = input := by
+      intro st input
+      fun_induction lexAux st input with
+      | case1 => simp
+      | case2 st c rest r ih =>
+        have hs : (lexStep st c rest).1.2 ++ (lexStep st c rest).2.2 = c :: rest := by
+          unfold lexStep; (repeat' split) <;> simp [List.takeWhile_append_dropWhile]
+        simp only [tokText_cons, ih]; exact hs
+    exact this _ _
+  rw [← h3, this]
+
+/-! ### non-vacuity: a concrete document with comments, duplicate names, continuation lines, a
+    continuation starting with ':', no final newline — it satisfies `WF` -/
+
+def exDoc : DocS :=
+  { lead := [.comment " lead".toList true, .blank],
+    paras := [
+      ({ first := { key := "Source".toList, ws := [' '], v := "foo".toList, nl := true,
+                    conts := [{ indent := [' '], text := ":x é".toList, nl := true }] },
+         rest := [.comment " c".toList true,
+                  .entry { key := "A".toList, ws := [], v := [], nl := true, conts := [] },
+                  .entry { key := "A".toList, ws := ['\t'], v := "b: #c".toList, nl := true, conts := [] },
+                  .comment " trailing".toList true] },
+       [.blank, .comment " between".toList true]),
+      ({ first := { key := "Package".toList, ws := [' '], v := "bar".toList, nl := false, conts := [] },
+         rest := [] }, [])] }
+
+example : exDoc.str = "# lead\n\nSource: foo\n :x é\n# c\nA:\nA:\tb: #c\n# trailing\n\n# between\nPackage: bar".toList := by
+  decide
+
+example : exDoc.WF := by decide
+
+example : exDoc.content =
+    [[("Source".toList, "foo\n:x é".toList), ("A".toList, []), ("A".toList, "b: #c".toList)],
+     [("Package".toList, "bar".toList)]] := by decide
 
 end Deb822Verif.Props.C03
